@@ -43,6 +43,11 @@ Theorem C10_number_grammar_untrimmed : forall bits prec, 0 <= prec -> number_tok
 Proof. exact untrimmed_number_token. Qed.
 Print Assumptions C10_number_grammar_untrimmed.
 
+(* ... and for bit patterns: every string of the model of GEOS_printDouble is a number token, the digit range being the checked condition *)
+Theorem C10_number_grammar_printDouble : forall bits prec, 0 <= prec -> digits_ok bits = true -> number_token (print_trimmed bits prec).
+Proof. exact print_trimmed_number_token. Qed.
+Print Assumptions C10_number_grammar_printDouble.
+
 (* length_bound. The trimmed writer's buffer is char[28]; the layout never emits more than 24 characters (24 is attained:
    "-1.2345678901234567e-308"), for any precision, given at most 17 digits, a 3-digit exponent and, in fixed notation, a value in [1e-5, 1e17). *)
 Theorem C10_length_bound : forall d k g prec, 1 <= k < 10 ^ 17 -> 0 <= prec ->
